@@ -29,6 +29,8 @@ TITLES = {
     'spaces': 'in ner  words and trailing blanks  ',
     'lead': '  leading blanks',
     'long': ('0123456789' * 10),
+    # characters that are line boundaries for str.splitlines but not for a text file (form feed, vertical tab, FS)
+    'ctl': 'page 1\x0cpage 2\x0bsection\x1c.',
     'unicode': 'box at 25 \u00b0C, \u03b1-helix \u2013 caf\u00e9',     # non-ASCII: characters != bytes
 }
 BOXES = {
@@ -311,7 +313,7 @@ class C13(Check):
     technique = ('exhaustive enumeration of four input sub-products on the real GroFile writer and reader over '
                  'real files; statement oracle + independent reference reader on the written bytes')
     level_text = ('every member of P1 (12x12 names x 10x10 numbers), P2 (7 formats x 54 boundary triples x velocities x '
-                  '1..3 records), P3 (7 formats x velocities x 5 titles x 10 boxes (incl. one for each single off-diagonal component) x count mode), P4 (interaction product, '
+                  '1..3 records), P3 (7 formats x velocities x 6 titles x 10 boxes (incl. one for each single off-diagonal component) x count mode), P4 (interaction product, '
                   '3024 x 1..3 records) and 299/300-record files is written by the real writer to a real file and read '
                   'back, in both tiers; thorough adds the full 18^3 cube of the coordinate alphabet per format x velocities '
                   'and the sizes 9, 10, 99, 100; coverage of that finite product, not a proof over all reals / strings')
